@@ -4,6 +4,7 @@ CONSTANTS
   Cancellers = {"k1"}
   Periodic = FALSE
   DeleteByName = FALSE
+  ClaimIgnoresCancel = FALSE
   DropOnClaim = TRUE
   MaxRuns = 1
 INVARIANTS TypeOK AtMostOnce NoOverlap NoPanic NoLostRun NotDropped CancelBranchNoRun NameReusable NameSlotUnique SuccessorReachable LockFreeAtEnd
